@@ -45,6 +45,7 @@ fn see_point(cx: &mut Cx, h: &mut History, kind: &str, p: &[u8], origin: String)
     }
 }
 
+#[derive(Clone)]
 struct Inputs {
     suite: Suite,
     pk: Bytes,
@@ -73,6 +74,8 @@ pub fn run_c07(cx: &mut Cx) {
     let hist = Rc::new(RefCell::new(History::default()));
     let first_op = cx.ch.choose("common_first_op", 5);
     let hist_outer = hist.clone();
+    let inp_outer: Rc<RefCell<Option<Rc<Inputs>>>> = Rc::new(RefCell::new(None));
+    let inp_slot = inp_outer.clone();
     cx.step(issuer, "issue", StepOpts::default(), move || {
         let (sk, pk) = api::keygen(suite, &bytes_for(seed, b"ikm", 0, 32), None, None)?;
         let header = Some(bytes_for(seed, b"hdr", 0, 5));
@@ -86,6 +89,7 @@ pub fn run_c07(cx: &mut Cx) {
         let inp = match st.out { Ok(Ok(i)) => Rc::new(i), other => { cx.log(format!("issuance failed: {:?}", other.err())); return; } };
         // the issuance commitment is itself a transcript
         inspect_commit(cx, &mut hist.borrow_mut(), &inp, &inp.cwp, &inp.blind, &inp.committed, "issuer-side commit".into());
+        *inp_slot.borrow_mut() = Some(inp.clone());
         for (hi, &h) in holders.iter().enumerate() {
             let n = 2 + cx.ch.choose("generations", 5);
             for g in 0..n {
@@ -96,6 +100,8 @@ pub fn run_c07(cx: &mut Cx) {
         }
     });
     cx.run();
+    let inp = inp_outer.borrow().clone();
+    if let (Some(inp), true) = (inp, cx.ch.chance("concurrent_burst", 1, 4)) { burst(cx, inp, hist_outer.clone()); }
     let t = hist_outer.borrow().transcripts;
     cx.add("n.transcripts", t);
 }
@@ -206,4 +212,63 @@ fn inspect_commit(cx: &mut Cx, h: &mut History, inp: &Inputs, cwp: &[u8], blind:
         if cwp[w..w + 32] == blind[..] { cx.violation("C07", "secret-in-clear/blind-factor".into(), format!("{origin}: octets {w}.. of the commitment-with-proof equal the blind factor")); }
         for (i, m) in ms.iter().enumerate() { if cwp[w..w + 32] == m.to_be_bytes() { cx.violation("C07", "secret-in-clear/committed-message".into(), format!("{origin}: octets {w}.. equal committed message scalar {i}")); } }
     }
+}
+
+/// Free-running burst: several holders draw randomness AT THE SAME TIME (random keys, blind
+/// factors, commitments, presentations on identical inputs, several rounds each without
+/// returning to the scheduler).  Same history monitor as the serial part of the run.
+fn burst(cx: &mut Cx, inp: Rc<Inputs>, hist: Rc<RefCell<History>>) {
+    let k = 3 + cx.ch.choose("burst_holders", 4) as usize;
+    let rounds = 2 + cx.ch.choose("burst_rounds", 5) as usize;
+    let nodes: Vec<NodeId> = (0..k).map(|i| cx.node(&format!("burst{i}"))).collect();
+    let l = inp.msgs.len();
+    let m = inp.committed.len();
+    let didx: Vec<usize> = if l > 20 { vec![1] } else { (0..l).filter(|i| i % 2 == 1).collect() };
+    let dcidx: Vec<usize> = if m > 20 { vec![0] } else { (0..m).filter(|i| i % 2 == 1).collect() };
+    type Round = (Result<(Bytes, Bytes), String>, Bytes, Result<(Bytes, Bytes), String>, Result<Bytes, String>, Result<Bytes, String>);
+    let steps: Vec<(NodeId, Box<dyn FnOnce() -> Vec<Round> + Send>)> = nodes.iter().map(|&n| {
+        let i: Inputs = (*inp).clone();
+        let (d, dc) = (didx.clone(), dcidx.clone());
+        let f: Box<dyn FnOnce() -> Vec<Round> + Send> = Box::new(move || (0..rounds).map(|_| {
+            let key = api::keygen_random(i.suite);
+            let bf = zkryptium::bbsplus::commitment::BlindFactor::random().to_bytes().to_vec();
+            let c = api::commit(i.suite, &Some(i.committed.clone()));
+            let p = api::proof_gen(i.suite, &i.pk, &i.sig, &i.header, &Some(b"nonce".to_vec()), &Some(i.msgs.clone()), &Some(d.clone()));
+            let bp = api::blind_proof_gen(i.suite, &i.pk, &i.bsig, &i.header, &None, &Some(i.msgs.clone()), &Some(i.committed.clone()), &Some(d.clone()), &Some(dc.clone()), &Some(i.blind.clone()));
+            (key, bf, c, p, bp)
+        }).collect());
+        (n, f)
+    }).collect();
+    cx.count("probe.concurrent_burst");
+    cx.burst(steps, "draw-concurrently", move |cx, outs| {
+        let suite = inp.suite;
+        let api_id = rm::api_id(suite, false);
+        let ms = rm::messages_to_scalars(suite, &inp.msgs, &api_id).unwrap();
+        let blind = rm::octets_to_scalar(&inp.blind).unwrap();
+        let (_, vec) = rm::blind_vector(suite, &inp.msgs, &inp.committed, &blind).unwrap();
+        let mut bidx = didx.clone();
+        bidx.extend(dcidx.iter().map(|j| j + l + 1));
+        let mut hh = hist.borrow_mut();
+        for (ni, st) in outs.into_iter().enumerate() {
+            let Ok(rounds) = st.out else { cx.violation("C07", "concurrent/crash".into(), format!("burst{ni} crashed while drawing concurrently")); continue; };
+            for (r, (key, bf, c, p, bp)) in rounds.into_iter().enumerate() {
+                let origin = format!("burst{ni}/round{r}");
+                cx.eval(&[b"burst", origin.as_bytes()], true);
+                cx.count("fault.concurrent_calls");
+                match key {
+                    Ok((sk, pk)) => {
+                        hh.transcripts += 1;
+                        if let Ok(s) = rm::octets_to_scalar(&sk) { see_scalar(cx, &mut hh, "random-sk", &s, origin.clone()); }
+                        see_point(cx, &mut hh, "random-pk", &pk, origin.clone());
+                    }
+                    Err(e) => cx.violation("C07", "concurrent/random-key-failed".into(), format!("{origin}: {e}")),
+                }
+                match rm::octets_to_scalar(&bf) { Ok(s) => see_scalar(cx, &mut hh, "BlindFactor::random", &s, origin.clone()), Err(_) => cx.violation("C07", "zero/BlindFactor::random".into(), format!("{origin}: BlindFactor::random = {}", hex::encode(&bf))) }
+                match c { Ok((cwp, b)) => inspect_commit(cx, &mut hh, &inp, &cwp, &b, &inp.committed, origin.clone()), Err(e) => cx.violation("C07", "concurrent/commit-failed".into(), format!("{origin}: {e}")) }
+                match p { Ok(p) => inspect_proof(cx, &mut hh, &p, &inp.sig, &ms, &didx, origin.clone()), Err(e) => cx.violation("C07", "concurrent/proof_gen-failed".into(), format!("{origin}: {e}")) }
+                match bp { Ok(p) => inspect_proof(cx, &mut hh, &p, &inp.bsig, &vec, &bidx, origin.clone()), Err(e) => cx.violation("C07", "concurrent/blind_proof_gen-failed".into(), format!("{origin}: {e}")) }
+            }
+        }
+    });
+    cx.run();
 }
